@@ -4,7 +4,7 @@
 //! same (canonical) family whose first `mask` bits equal the first `mask` bits of the address.
 //! IPv4-mapped IPv6 query addresses (`::ffff:a.b.c.d`) count as the IPv4 address `a.b.c.d`.
 //! Subnets are in the canonical form `IpSubnet::from_str` produces (an IPv4-mapped IPv6 subnet is
-//! stored as IPv4; `c31_parse_v4` checks the mask rule), masks within the family's width.
+//! stored as IPv4), masks within the family's width.
 //!
 //! Hybrid encoding. `BitTree::fill_node` recurses from 16 guarded call sites per level and keeps
 //! all its data on the heap, which CBMC's constant propagation does not see through: symbolic
@@ -55,43 +55,56 @@ fn is_mapped(a: u128) -> bool {
     (a >> 32) == 0xffff
 }
 
-fn check4<const N4: usize, const N6: usize>(c: &Case<u32, N4, N6>) {
-    let q: u32 = kani::any();
-    let q6: u128 = kani::any();
-    let f = h::filter_from_nodes(&c.v4, &c.v6);
+/// Query forms for IPv4 lists.
+#[derive(Clone, Copy, PartialEq)]
+enum Q4 {
+    Plain,
+    Mapped,
+    ProperV6,
+}
+fn check4(c: &Case<u32, 16, 1>, form: Q4) {
+    let f = h::filter_from_nodes_16_1(&c.v4, &c.v6);
     let (n, nets, masks) = (c.n, c.nets, c.masks);
     assert!(n <= 2 && masks[0] <= 32 && masks[1] <= 32 && c.len4 >= 1 && c.len6 >= 1);
-    let want = (n >= 1 && in4(nets[0], masks[0], q)) || (n >= 2 && in4(nets[1], masks[1], q));
-    let got = h::filter_is_in(&f, v4(q));
-    assert!(got == want, "IPv4 address listed iff in some configured IPv4 subnet");
-    let got_mapped = h::filter_is_in(&f, v6(MAPPED | q as u128));
-    assert!(got_mapped == want, "IPv4-mapped IPv6 address is matched as its IPv4 address");
-    if !is_mapped(q6) {
-        assert!(!h::filter_is_in(&f, v6(q6)), "a proper IPv6 address is never listed by IPv4 subnets");
+    match form {
+        Q4::Plain | Q4::Mapped => {
+            let q: u32 = kani::any();
+            let want = (n >= 1 && in4(nets[0], masks[0], q)) || (n >= 2 && in4(nets[1], masks[1], q));
+            let got = if form == Q4::Plain { h::filter_is_in(&f, v4(q)) } else { h::filter_is_in(&f, v6(MAPPED | q as u128)) };
+            assert!(got == want, "IPv4 (plain or IPv4-mapped) address listed iff in some configured IPv4 subnet");
+            kani::cover!(got && masks[0] > 0, "listed (not through a /0)");
+            kani::cover!(!got && n >= 1, "not listed although subnets are configured");
+        }
+        Q4::ProperV6 => unreachable!("see check4_proper_v6"),
     }
-    kani::cover!(got && n == 2 && !in4(nets[0], masks[0], q), "listed through the second subnet only");
-    kani::cover!(!got && n == 2, "not listed although two subnets are configured");
-    kani::cover!(got && n == 1 && masks[0] == 32, "listed by a /32");
-    kani::cover!(got && masks[0] == 0 && n >= 1, "listed by a /0");
+}
+fn check4_proper_v6(c: &Case<u32, 16, 1>) {
+    let f = h::filter_from_nodes_16_1(&c.v4, &c.v6);
+    let q6: u128 = kani::any();
+    kani::assume(!is_mapped(q6));
+    assert!(!h::filter_is_in(&f, v6(q6)), "a proper IPv6 address is never listed by IPv4 subnets");
+    kani::cover!(c.n >= 1, "non-empty list");
 }
 
-fn check6<const N4: usize, const N6: usize>(c: &Case<u128, N4, N6>) {
-    let q: u128 = kani::any();
-    let q4: u32 = kani::any();
-    let f = h::filter_from_nodes(&c.v4, &c.v6);
+fn check6(c: &Case<u128, 1, 64>) {
+    let f = h::filter_from_nodes_1_64(&c.v4, &c.v6);
     let (n, nets, masks) = (c.n, c.nets, c.masks);
     assert!(n <= 2 && c.len4 >= 1 && c.len6 >= 1 && !is_mapped(nets[0]) && !is_mapped(nets[1]));
-    if !is_mapped(q) {
-        let want = (n >= 1 && in6(nets[0], masks[0], q)) || (n >= 2 && in6(nets[1], masks[1], q));
-        let got = h::filter_is_in(&f, v6(q));
-        assert!(got == want, "IPv6 address listed iff in some configured IPv6 subnet");
-        kani::cover!(got && n == 2 && !in6(nets[0], masks[0], q), "listed through the second subnet only");
-        kani::cover!(!got && n == 2, "not listed although two subnets are configured");
-        kani::cover!(got && n == 1 && masks[0] == 128, "listed by a /128");
-    }
-    // IPv4 (plain or mapped) query addresses are canonically IPv4: never in an IPv6 subnet.
+    let q: u128 = kani::any();
+    kani::assume(!is_mapped(q));
+    let want = (n >= 1 && in6(nets[0], masks[0], q)) || (n >= 2 && in6(nets[1], masks[1], q));
+    let got = h::filter_is_in(&f, v6(q));
+    assert!(got == want, "IPv6 address listed iff in some configured IPv6 subnet");
+    kani::cover!(got && masks[0] > 0, "listed (not through a /0)");
+    kani::cover!(!got && n >= 1, "not listed although subnets are configured");
+}
+/// IPv4 (plain or mapped) query addresses are canonically IPv4: never in an IPv6 subnet.
+fn check6_v4_query(c: &Case<u128, 1, 64>) {
+    let f = h::filter_from_nodes_1_64(&c.v4, &c.v6);
+    let q4: u32 = kani::any();
     assert!(!h::filter_is_in(&f, v4(q4)), "IPv4 address never listed by IPv6 subnets");
     assert!(!h::filter_is_in(&f, v6(MAPPED | q4 as u128)), "IPv4-mapped address never listed by IPv6 subnets");
+    kani::cover!(c.n >= 1, "non-empty list");
 }
 
 fn any_index(len: usize) -> usize {
@@ -100,75 +113,81 @@ fn any_index(len: usize) -> usize {
     i
 }
 
-/// IPv4: 34 single-subnet lists (every mask), 108 nested pairs, 63 sibling pairs, 64 pseudo-random
-/// pairs, duplicates/extremes; every query address.
+/// IPv4 quick table (272 lists: empty, 192.168.1.165/m for every m, 108 nested pairs, 63 sibling
+/// pairs, duplicates/extremes, 64 pseudo-random pairs) x every IPv4 address.
 #[kani::proof]
-#[kani::unwind(17)]
-fn c31_v4() {
-    check4(&V4_QUICK[any_index(V4_QUICK.len())]);
+#[kani::unwind(10)]
+fn c31_v4_plain() {
+    check4(&V4_QUICK[any_index(V4_QUICK.len())], Q4::Plain);
 }
-/// IPv4 thorough: all 33 x 33 mask pairs of the nested pair in both orders, 1024 pseudo-random pairs.
+/// Same lists x every IPv4-mapped IPv6 address `::ffff:a.b.c.d`.
 #[kani::proof]
-#[kani::unwind(17)]
-fn c31_v4_full() {
-    check4(&V4_FULL[any_index(V4_FULL.len())]);
+#[kani::unwind(10)]
+fn c31_v4_mapped() {
+    check4(&V4_QUICK[any_index(V4_QUICK.len())], Q4::Mapped);
 }
-/// IPv6: selected masks incl. 0, 1, 127, 128; sibling pairs at the top, around /64 and at the bottom;
-/// nested pairs; pseudo-random pairs; every query address.
+/// Same lists x every proper IPv6 address: never listed.
 #[kani::proof]
-#[kani::unwind(48)]
+#[kani::unwind(10)]
+fn c31_v4_proper_v6() {
+    check4_proper_v6(&V4_QUICK[any_index(V4_QUICK.len())]);
+}
+// IPv4 thorough table (3302 lists: all 33 x 33 mask pairs of the nested pair in both orders, 1024
+// pseudo-random pairs, ...) in 3 chunks (one query over the whole table ran out of 8 GB for the
+// mapped form).
+macro_rules! chunk4 {
+    ($name:ident, $table:ident, $form:expr) => {
+        #[kani::proof]
+        #[kani::unwind(10)]
+        fn $name() {
+            check4(&$table[any_index($table.len())], $form);
+        }
+    };
+}
+chunk4!(c31_v4_full_plain_0, V4_FULL_0, Q4::Plain);
+chunk4!(c31_v4_full_plain_1, V4_FULL_1, Q4::Plain);
+chunk4!(c31_v4_full_plain_2, V4_FULL_2, Q4::Plain);
+chunk4!(c31_v4_full_mapped_0, V4_FULL_0, Q4::Mapped);
+chunk4!(c31_v4_full_mapped_1, V4_FULL_1, Q4::Mapped);
+chunk4!(c31_v4_full_mapped_2, V4_FULL_2, Q4::Mapped);
+const _: () = assert!(V4_FULL_CHUNKS == 3 && V6_FULL_CHUNKS == 5, "table chunk count changed: update the harness list");
+
+/// First 40 lists of the IPv6 quick table (empty list, one subnet with masks 0, 1, 3, 4, 5, 8,
+/// 16, 31, 32, 33, 48, 64, 96, 124, 125, 127, 128, sibling pairs for masks 1..=11) x every
+/// proper IPv6 address.
+#[kani::proof]
+#[kani::unwind(34)]
+fn c31_v6_quick() {
+    check6(&V6_MINI[any_index(V6_MINI.len())]);
+}
+/// IPv6 quick table (149 lists) x every proper IPv6 address.
+#[kani::proof]
+#[kani::unwind(34)]
 fn c31_v6() {
     check6(&V6_QUICK[any_index(V6_QUICK.len())]);
 }
-/// IPv6 thorough: every mask 0..=128, every sibling pair, more nested and pseudo-random pairs.
+/// IPv6 lists x every IPv4 / IPv4-mapped address: never listed.
 #[kani::proof]
-#[kani::unwind(56)]
-fn c31_v6_full() {
-    check6(&V6_FULL[any_index(V6_FULL.len())]);
+#[kani::unwind(34)]
+fn c31_v6_v4_query() {
+    check6_v4_query(&V6_QUICK[any_index(V6_QUICK.len())]);
 }
-
-// ------------------------------------------------------------------------------------- parsing
-/// `IpSubnet::from_str("a.b.c.d/mm")` with symbolic decimal digits.
-#[kani::proof]
-#[kani::unwind(14)]
-#[kani::stub(alloc::fmt::format, crate::stubs::fmt_format_stub)]
-fn c31_parse_v4() {
-    let d: [u8; 6] = kani::any();
-    let mut i = 0;
-    while i < 6 {
-        kani::assume(d[i] >= b'0' && d[i] <= b'9');
-        i += 1;
-    }
-    let text = [d[0], b'.', d[1], b'.', d[2], b'.', d[3], b'/', d[4], d[5]];
-    let s = std::str::from_utf8(&text).unwrap();
-    let mask = (d[4] - b'0') * 10 + (d[5] - b'0');
-    let want_addr = (((d[0] - b'0') as u32) << 24) | (((d[1] - b'0') as u32) << 16) | (((d[2] - b'0') as u32) << 8) | ((d[3] - b'0') as u32);
-    match s.parse::<IpSubnet>() {
-        Ok(sub) => {
-            assert!(mask <= 32, "accepted an IPv4 mask above 32");
-            assert!(sub.mask == mask && sub.addr == v4(want_addr), "parsed value");
-            kani::cover!(mask == 32, "accepted /32");
-            kani::cover!(mask == 0, "accepted /0");
+macro_rules! chunk6 {
+    ($name:ident, $table:ident) => {
+        #[kani::proof]
+        #[kani::unwind(34)]
+        fn $name() {
+            check6(&$table[any_index($table.len())]);
         }
-        Err(e) => {
-            std::mem::forget(e);
-            assert!(mask > 32, "rejected a well-formed IPv4 subnet");
-            kani::cover!(mask == 33, "rejected /33");
-        }
-    }
+    };
 }
+// IPv6 thorough table (every mask 0..=128, every sibling pair, 162 nested pairs, 96 pseudo-random
+// pairs) in 5 chunks of <= 130 lists.
+chunk6!(c31_v6_full_0, V6_FULL_0);
+chunk6!(c31_v6_full_1, V6_FULL_1);
+chunk6!(c31_v6_full_2, V6_FULL_2);
+chunk6!(c31_v6_full_3, V6_FULL_3);
+chunk6!(c31_v6_full_4, V6_FULL_4);
 
-#[kani::proof]
-#[kani::unwind(17)]
-fn probe_c31_sym32() {
-    check4(&V4_QUICK[any_index(32)]);
-}
-#[kani::proof]
-#[kani::unwind(17)]
-fn probe_c31_conc16() {
-    let mut i = 40;
-    while i < 56 {
-        check4(&V4_QUICK[i]);
-        i += 1;
-    }
-}
+// `IpSubnet::from_str` is not decided: std's `IpAddr` parser on ten symbolic characters did not
+// finish within the 5-minute probe cap (391 s, 4.2 GB when cut off).
